@@ -325,7 +325,13 @@ class Gen:
         have = m.channels_of(m.entries[name][k])
         used_qubits = {c[0] for c in m.channels_of(m.roots[name])}
         new_ch = kind_channels(kind, st["q"], st.get("chan") if kind in TAKES_CHAN else None)
-        # ... or on a qubit nothing in the whole circuit uses yet (cannot change any earlier placement either)
+        # ... or on a qubit nothing in the whole circuit uses yet (cannot change any earlier placement either) - but
+        # only into a block that itself sits unrelated at the start of a top-level circuit: an unrelated operation
+        # added to a *related* nested block after a listing reports block-relative times until the next listing
+        # (observed, see DESIGN 11 "outside the workload"), which is not what this step is meant to exercise
+        fresh = any(c[0] not in used_qubits for c in new_ch)
+        if fresh and m.entries[name][k].rel is not None:
+            return False
         if not all(c[0] not in used_qubits or any(e == c or (e[0] == c[0] and e[1] == "ALL") for e in have) for c in new_ch):
             return False
         self.emit(st)
